@@ -44,8 +44,9 @@ def parse_svg_color(s, opacity=None):
     raise ValueError('colour %r' % s)
 
 
-def same_px(px, exp, tol=1):
-    """pixel (r,g,b,a) equals expected (r,g,b,a); transparent pixels match on alpha only."""
+def same_px(px, exp, tol=0.5):
+    """pixel (r,g,b,a) equals expected (r,g,b,a); transparent pixels match on alpha only.  A float alpha a is expected as the
+    integer nearest to 255*a (|difference| <= 0.5, ties either way)."""
     if exp[3] == 0:
         return px[3] == 0
     return tuple(px[:3]) == tuple(exp[:3]) and abs(px[3] - exp[3]) <= tol
